@@ -304,6 +304,39 @@ void do_layout(Toks &tk, std::ostream &os)
         os << "\n";
     }
 }
+// ------------------------------------------------------------------ RESIZE: a tensor that held one shape is resized to another
+void do_resize(Toks &tk, std::ostream &os)
+{
+    std::string id = "Z " + tk.tok();
+    size_t R1 = (size_t)tk.integer(), C1 = (size_t)tk.integer(), T1 = (size_t)tk.integer();
+    size_t R = (size_t)tk.integer(), C = (size_t)tk.integer(), T = (size_t)tk.integer();
+    tensor::Tensor<double> t(R1, C1, T1);
+    for (size_t a = 0; a < T1; a++)
+        for (size_t j = 0; j < C1; j++)
+            for (size_t i = 0; i < R1; i++)
+                t(i, j, a) = 1.0 + (double)(i + j + a);
+    t.resize(R, C, T);
+    auto d = t.dims();
+    os << id << " dims " << std::get<0>(d) << " " << std::get<1>(d) << " " << std::get<2>(d) << " " << t.size() << "\n";
+    // positions are computed with the tensor's own (protected) formula on its CURRENT dimensions, without touching memory
+    os << id << " idx";
+    for (size_t a = 0; a < T; a++)
+        for (size_t j = 0; j < C; j++)
+            for (size_t i = 0; i < R; i++)
+                os << " " << (a * std::get<1>(d) * std::get<0>(d) + j * std::get<0>(d) + i);
+    os << "\n";
+    bool zero = true;
+    for (double x : t.get_data())
+        if (x != 0.0)
+            zero = false;
+    os << id << " zeroed " << (zero ? 1 : 0) << "\n";
+    // Matrix / DiagonalTensor / SymmetricTensor forward to the same function
+    tensor::Matrix<double> m(R1 * T1, C1);
+    m.resize(R * T, C);
+    auto dm = m.dims();
+    os << id << " matrix " << std::get<0>(dm) << " " << std::get<1>(dm) << " " << std::get<2>(dm) << "\n";
+}
+
 // ------------------------------------------------------------------ WAFF: write_affinity_file on a position-encoded vector
 void do_waff(Toks &tk, std::ostream &os)
 {
@@ -458,6 +491,8 @@ int main(int argc, char **argv)
                 vh::do_raff(tk, buf);
             else if (c == "RNG")
                 vh::do_rng(tk, buf);
+            else if (c == "RESIZE")
+                vh::do_resize(tk, buf);
             else if (c == "WAFF")
                 vh::do_waff(tk, buf);
             else if (c == "#")
